@@ -25,10 +25,13 @@ Proof.
 Qed.
 
 (** Mutual exclusion.  For any number of threads in any number of processes and every
-    interleaving of their steps, as long as nobody is killed, live processes run their
-    heartbeats within [d] of the due time (built into [LTick]) and no waiter reaches the
-    empty-retry limit on the empty file of a live holder ([live_ok]): at most one thread
-    holds the lock, however long it is held. *)
+    interleaving of their steps, as long as every holder is alive - no process is killed
+    while one of its threads has created or holds the lock file; kills of waiters and of
+    processes that released earlier are allowed -, live processes run their heartbeats
+    within [d] of the due time (built into [LTick]) and no waiter reaches the empty-retry
+    limit on the empty file of a live holder ([live_ok]): at most one thread holds the lock,
+    however long it is held.  (That the last hypothesis cannot be dropped, even for the
+    repaired code on a healthy disk: [C08_mutex_refuted_creation_gaps] below.) *)
 Theorem C08_mutex_no_crash : forall d, H_live d -> forall s t1 t2 i1 i2,
   reach (cfg_repo d) (live_ok (cfg_repo d)) init s ->
   cs s t1 = CHolding i1 -> cs s t2 = CHolding i2 -> t1 = t2.
@@ -90,11 +93,13 @@ Proof.
 Qed.
 Print Assumptions C08_stale_recovers.
 
-(** ... and when the holder died while the file was empty, it stays empty and every read
-    counts towards the retry limit, after which it is treated as stale *)
+(** ... and when the holder died while the file was empty - killed between the O_EXCL
+    create and the metadata write ([owner]: CCreated), or in a heartbeat's truncate gap -
+    it stays empty and every read counts towards the retry limit, after which it is treated
+    as stale *)
 Theorem C08_empty_recovers : forall d, H_live d -> forall s0 t i s ls s',
   reach (cfg_repo d) any_label init s0 ->
-  cs s0 t = CHolding i -> file s0 = Some i -> content s0 i = FEmpty ->
+  owner s0 t i -> file s0 = Some i -> content s0 i = FEmpty ->
   step (cfg_repo d) s0 (LKill (cproc s0 t)) = Some s ->
   run (cfg_repo d) s ls = Some s' -> file s' = Some i ->
   content s' i = FEmpty /\
@@ -107,6 +112,20 @@ Proof.
   exact (HBInv_reach (cfg_repo d) (repo_checks d) (repo_good d Hd) any_label s0 R).
 Qed.
 Print Assumptions C08_empty_recovers.
+
+(** The bounded time: in every state of every run (kills included) a Lock call that sleeps is
+    due to look at the lock file again within max(fileLockPollInterval, empty-retry sleep) =
+    the poll interval of the repository.  With the two theorems above: a persistent waiter
+    is at the top of its loop within one poll interval of the file becoming stale
+    (factor * interval after the holder's death), resp. reads an empty file at least every
+    empty-retry sleep, and then obtains the lock by its own next steps. *)
+Theorem C08_waiter_looks_again_within_poll : forall d s t ec u,
+  reach (cfg_repo d) any_label init s -> cs s t = CSleep ec u ->
+  u <= now s + file_lock_poll_interval.
+Proof.
+  intros d s t ec u R H. exact (SleepInv_reach (cfg_repo d) any_label s R t ec u H).
+Qed.
+Print Assumptions C08_waiter_looks_again_within_poll.
 
 (** Without the fix the statement is false: the zombie heartbeat. *)
 Theorem C08_stale_recovers_refuted_zombie :
@@ -130,6 +149,20 @@ Theorem C08_mutex_refuted_empty_count :
     cs s 0%nat = CHolding i1 /\ cs s 1%nat = CHolding i2 /\ i1 <> i2.
 Proof. exact mutex_refuted_empty_count. Qed.
 Print Assumptions C08_mutex_refuted_empty_count.
+
+(** ... and even for the repaired code ([cfg_resets]: both fixes, healthy disk) the
+    hypothesis "no waiter gives up on an empty live file" of [C08_mutex_no_crash] cannot be
+    dropped: eight processes take and release the lock 250 ms apart and a waiter reads the
+    file each time between a taker's O_EXCL create and its metadata write - eight
+    consecutive empty reads, nobody killed, within 2 s - and removes the file of the live
+    eighth taker: two holders.  (Eight coincidences with gaps of microseconds: not
+    reproduced on the real code, not treated as a finding; it delimits what is proved.) *)
+Theorem C08_mutex_refuted_creation_gaps :
+  exists s i1 i2, run cfg_resets init creation_gaps_run = Some s /\
+    (forall p, ~ In (LKill p) creation_gaps_run) /\
+    cs s 8%nat = CHolding i1 /\ cs s 0%nat = CHolding i2 /\ i1 <> i2 /\ now s < 2 * sec.
+Proof. exact mutex_refuted_creation_gaps. Qed.
+Print Assumptions C08_mutex_refuted_creation_gaps.
 
 (** Distinct names never block each other — for names with different Safe images: their
     lock files are different files, and steps on one lock file neither change nor enable
@@ -203,7 +236,7 @@ Definition live_okb (c : config) (s : state) (l : label) : bool :=
 Lemma live_okb_sound c s l : live_okb c s l = true -> live_ok c s l.
 Proof.
   intros H. split.
-  - intros p ->. discriminate.
+  - intros (p & t & i & -> & _). discriminate.
   - intros (t & ec & i & -> & Hc & Hf & Hct & Hr). unfold live_okb in H. rewrite Hc, Hf, Hct in H. congruence.
 Qed.
 
@@ -215,6 +248,33 @@ Proof.
   exists s. split.
   - apply (reach_run_sound _ _ _ (live_okb_sound (cfg_repo d2)) demo_live init init s); [constructor | exact E].
   - revert E. vm_compute. intros E; injection E; intros <-. cbn. eauto.
+Qed.
+
+(** ... and the waiter's process may be killed in such a run: the run stays within
+    [live_ok] (the kill hits no owner) and thread 0 still holds *)
+Example C08_live_run_with_waiter_kill :
+  exists s, reach (cfg_repo d2) (live_ok (cfg_repo d2)) init s /\
+            cs s 0%nat = CHolding 0%nat /\ cs s 1%nat = CDead.
+Proof.
+  destruct (reach_run (cfg_repo d2) (live_okb (cfg_repo d2)) init demo_live) as [s|] eqn:E; [|vm_compute in E; discriminate].
+  assert (R : reach (cfg_repo d2) (live_ok (cfg_repo d2)) init s).
+  { apply (reach_run_sound _ _ _ (live_okb_sound (cfg_repo d2)) demo_live init init s); [constructor | exact E]. }
+  assert (F : cs s 0%nat = CHolding 0%nat /\ (exists ec u, cs s 1%nat = CSleep ec u) /\
+              forall t, cproc s t = 1%nat -> t = 1%nat).
+  { clear R. revert E. vm_compute. intros E; injection E; intros <-. split; [reflexivity|]. split; [eauto|].
+    intros [|[|t]]; cbn; intros H; try reflexivity; discriminate. }
+  destruct F as (F0 & (ec1 & u1 & F1) & Fp).
+  exists (State (now s) (file s) (content s) (nexti s) (kill_cs 1%nat (cproc s) (cs s)) (cproc s) (tids s)
+                (kill_hb 1%nat (hb s)) (lastcreate s)).
+  split.
+  - apply (reach_step _ _ init s (LKill 1%nat) _ R); [|reflexivity].
+    split.
+    + intros (p & t & i & Ep & Ho & Hp). injection Ep; intros <-.
+      apply Fp in Hp. subst t. destruct Ho as [[ec Ho]|Ho]; congruence.
+    + intros (t & ec & i & Ep & _). discriminate.
+  - cbn [cs]. split.
+    + rewrite kill_cs_other; [exact F0|]. intros H. apply Fp in H. discriminate.
+    + apply kill_cs_dead; [|congruence]. clear - E. revert E. vm_compute. intros E; injection E; intros <-. reflexivity.
 Qed.
 
 (** the hypotheses of the recovery theorem are met: a holder that has been refreshed once
